@@ -687,6 +687,7 @@ constexpr void url_aggregator::clear_hostname() {
     hostname_length--;
   }
   buffer.erase(start, hostname_length);
+  host_type = url_host_type::DEFAULT;
   components.host_end = start;
   components.pathname_start -= hostname_length;
   if (components.search_start != url_components::omitted) {
